@@ -521,7 +521,9 @@ fn check_program(rep: &mut Report, drv: &mut Driver, prog: &Prog, args: &[Args],
         Ok(Some((i, real))) => {
             let bad = args[i];
             let what0 = describe(&spec[i], &real);
-            let small = shrink(drv, prog, ret, bad);
+            // many programs usually show the same defect: minimise the first few of a batch only
+            let small = if rep.impl_violations.len() < 4 { shrink(drv, prog, ret, bad) } else { prog.clone() };
+            let minimised = rep.impl_violations.len() < 4;
             let (ssrc, ssx) = (source(&small), sexp(&small));
             let sspec = spec_answers(drv, &ssx, &[bad]).map(|v| v[0].clone()).unwrap_or_default();
             let sreal = compile_guarded(&ssrc).ok().and_then(|r| r.ok()).and_then(|mut p| call_once(&mut p, ret, bad).ok()).unwrap_or_default();
@@ -531,7 +533,7 @@ fn check_program(rep: &mut Report, drv: &mut Driver, prog: &Prog, args: &[Args],
                 &violation_key(&small),
                 json!({
                     "src": ssrc, "sexp": ssx, "ret": ret.name(), "args": [bad.0, bad.1, bad.2],
-                    "spec": sspec, "real": sreal, "minimised": true,
+                    "spec": sspec, "real": sreal, "minimised": minimised,
                     "original": {"case": ident, "src": src, "spec": spec[i], "real": real, "difference": what0},
                 }),
             );
